@@ -545,3 +545,54 @@ _extend("C20", [("""   (C20_paren_is_transparent) and two token lists with the s
          ("C20_same_tokens_same_program", "LayoutTree", "same_tokens_same_program", ""),
          ("C20_layout_irrelevant", "LayoutTree", "layout_irrelevant", ""),
          ("C20_paren_atom", "LayoutTree", "paren_atom_closure", "")])
+
+# ---- DiagProofs.v (diagnostics discipline, code positions), C05Tokens.v (token-level writer) ----
+APPEND = {}
+APPEND["C08"] = ("""(* runtime errors and warnings are located through the position table of the program: one entry per code byte, each the
+   end offset of a token of the source, non-decreasing along the code when token positions are *)
+From BCL Require Import Model.Parser Proofs.ParserTotal Proofs.CompileVerifies Proofs.DiagProofs.""",
+[("C08_code_positions_are_token_positions", "DiagProofs", "prog_positions_are_token_positions", "every entry of the position table is the end offset of a token the lexer delivered"),
+ ("C08_code_positions_in_source", "DiagProofs", "prog_positions_in_source", "hence an offset inside the source"),
+ ("C08_code_positions_length", "DiagProofs", "prog_positions_length", "one entry per code byte"),
+ ("C08_code_positions_sorted", "DiagProofs", "prog_positions_sorted", "jump patching never disturbs the table"),
+ ("C08_diag_per_lexical_error", "DiagProofs", "advance_spec", "the parser logs exactly one diagnostic per tERR token it receives, at that token's position"),
+])
+
+_extend("C17", [("""C17_resync (a later faulty statement still gets its own diagnostic) is validated by
+   the differential run only.""", """resynchronisation is proved in Proofs/DiagProofs.v: every reporting primitive appends exactly one diagnostic
+   whatever the panic flag (C17_error_appends_one: parse.go does NOT silence errors in panic mode, so one faulty
+   statement may produce several diagnostics -- C17_cascade_example -- which the property allows); `sync` stops at
+   the first token that is a statement keyword or the end and changes nothing but the token cursor
+   (C17_sync_spec); every toplevel statement starts with the panic flag cleared, at depth 0, on a non-end token
+   (C17_statements_start_clean), and a statement that ends in panic has added at least one diagnostic of its own
+   (C17_rejected_is_reported): a later faulty statement always gets its own diagnostic.""")],
+        "From BCL Require Import Model.Parser Proofs.DiagProofs.",
+        [("C17_error_appends_one", "DiagProofs", "error_appends_one", ""),
+         ("C17_sync_spec", "DiagProofs", "sync_spec", ""),
+         ("C17_sync_spec_clean", "DiagProofs", "sync_spec_clean", ""),
+         ("C17_statements_start_clean", "DiagProofs", "toplevel_statements_start_clean", ""),
+         ("C17_rejected_is_reported", "DiagProofs", "statement_rejected_is_reported", ""),
+         ("C17_log_only_grows", "DiagProofs", "parse_tokens_step_ok", "")])
+
+_extend("C05", [("""   forms bind `bt:all -> slice` and yield the values in order.  Text -> tokens -> tree (quoting, number printing) is
+   exercised by the harness only.""", """   forms bind `bt:all -> slice` and yield the values in order.  One level further down (Proofs/C05Tokens.v) the
+   writer is defined on TOKENS (`tokens_of_prog`: decimal integers without leading zero, strings quoted with backslash escapes for the quote, the backslash
+   and, as backslash-x-HH, every byte outside printable ASCII, negative numbers with unary minus) and the grammar reads its output back as exactly that
+   tree (C05_tokens_parse), the one-pass parser accepts it and emits the generator's code, and the round trip
+   holds from the token list (C05_token_roundtrip, C05_token_code_roundtrip); literal texts denote their values
+   (C05_int_text, C05_quote_text; the text of a float is a premise `parse_float (ftext b) = inr b` per float
+   written: float printing is not modelled).  Bytes -> tokens (the lexer on the written text) is exercised by the
+   harness only.""")],
+        "From BCL Require Import Proofs.LayoutTree Proofs.C05Tokens.",
+        [("C05_tokens_parse", "C05Tokens", "tokens_parse", "", "check"),
+         ("C05_tokens_parse_slice", "C05Tokens", "tokens_parse_slice", "", "check"),
+         ("C05_parser_accepts_written", "C05Tokens", "parser_accepts_written", "", "check"),
+         ("C05_token_roundtrip", "C05Tokens", "C05_token_roundtrip", "", "check"),
+         ("C05_token_code_roundtrip", "C05Tokens", "C05_token_code_roundtrip", "", "check"),
+         ("C05_token_roundtrip_slice", "C05Tokens", "C05_token_roundtrip_slice", "", "check"),
+         ("C05_int_text", "C05Tokens", "parse_int_text", ""),
+         ("C05_quote_text", "C05Tokens", "unquote_quote_text", "")])
+
+_extend("C02", [], "", [
+ ("C02_statement_simulation", "T1Proofs", "stmt_sim", "every statement preserves the slot discipline SR (compile-time table = scopes of the environment, VM stack = values of the live variables)", "check"),
+ ("C02_expression_simulation", "T1Expr", "expr_sim", "every expression, including embedded assignments, in evaluation order", "check")])
